@@ -60,6 +60,10 @@ struct Ctx<'a> {
     placement_only_recurrences: u64,
     g: MoveGenerator,
     max_mult: u32,
+    /// C05 mode: the same histories, but the only thing judged is that the position key does not
+    /// depend on how often the position has been registered
+    c05: bool,
+    key_checks: u64,
 }
 
 fn ops_text(ops: &[OpRec]) -> Vec<String> {
@@ -79,6 +83,9 @@ fn explore(cx: &mut Ctx, board: &mut chess::board::Board, stack: &mut Vec<(Pos, 
         return;
     }
     let viol = |cx: &Ctx, class: &str, ops: &[OpRec], detail: String| {
+        if cx.c05 {
+            return;
+        }
         cx.sink.push(Violation { prop: "C17".into(), class: class.into(), seed: cx.seed.fen.into(), path: ops_text(ops), detail, extra: json!({"kind": "c17", "seed": cx.seed.name}) });
     };
     // --- play each menu move ---
@@ -112,6 +119,14 @@ fn explore(cx: &mut Ctx, board: &mut chess::board::Board, stack: &mut Vec<(Pos, 
             cx.placement_only_recurrences += 1;
         }
         let got = guarded(|| board.count_current_position());
+        if cx.c05 {
+            cx.key_checks += 1;
+            let here = board.current_position_hash();
+            let direct = build_board(&succ).current_position_hash();
+            if here != direct {
+                cx.sink.push(Violation { prop: "C05".into(), class: "key-depends-on-registration-count".into(), seed: cx.seed.fen.into(), path: ops_text(ops), detail: format!("{} registered {} time(s) on this board: key {:#018x}, the same position set up directly has key {:#018x}", succ.to_fen(), want, here, direct), extra: json!({"kind": "c05-registered", "seed": cx.seed.name}) });
+            }
+        }
         let mut ok = true;
         match got {
             Ok(c) => {
@@ -406,6 +421,34 @@ fn long_cycles(sink: &Sink, thorough: bool) -> (u64, u64, u64) {
     (games, plies, long_gap)
 }
 
+/// C05: along every register / unregister history (three seeds, the given length) the key of the
+/// live board equals the key of the same position set up directly, whatever the multiplicity.
+pub fn c05_keys_under_registration(sink: &Sink, rep: &mut Report, len: u32) {
+    let mut total = 0u64;
+    let mut maxm = 0u32;
+    for seed in SEEDS.iter().filter(|s| matches!(s.name, "corner-shuffle" | "triangulation" | "castling-right-lost")) {
+        let root = Pos::from_fen(seed.fen).unwrap();
+        let allowed: Vec<Sq> = seed.squares.iter().map(|s| parse_sq(s).unwrap()).collect();
+        let mut cx = Ctx { seed, allowed, sink, ops: 0, histories: 0, recurrences: 0, threefold: 0, placement_only_recurrences: 0, g: MoveGenerator::new(), max_mult: 0, c05: true, key_checks: 0 };
+        let mut board = build_board(&root);
+        let mut ms: FxHashMap<CKey, u32> = FxHashMap::default();
+        let mut pms: FxHashMap<[u64; 4], u32> = FxHashMap::default();
+        let k = canon(&root);
+        ms.insert(k, 1);
+        pms.insert([k[0], k[1], k[2], k[3]], 1);
+        let _ = board.count_current_position();
+        let mut stack = Vec::new();
+        let mut ops = Vec::new();
+        explore(&mut cx, &mut board, &mut stack, &root, &mut ms, &mut pms, &mut ops, len);
+        total += cx.key_checks;
+        maxm = maxm.max(cx.max_mult);
+        rep.states += cx.histories;
+        rep.transitions += cx.ops;
+    }
+    rep.add("keys_compared_on_boards_with_registered_positions", total);
+    rep.counters.insert("largest_registration_multiplicity".into(), maxm as u64);
+}
+
 pub fn run(a: &Args) -> i32 {
     let mut rep = Report::new("C17", &a.tier, a.seed);
     let sink = Sink::new(6);
@@ -419,7 +462,7 @@ pub fn run(a: &Args) -> i32 {
             return 2;
         }
         let allowed: Vec<Sq> = seed.squares.iter().map(|s| parse_sq(s).unwrap()).collect();
-        let mut cx = Ctx { seed, allowed: allowed.clone(), sink: &sink, ops: 0, histories: 0, recurrences: 0, threefold: 0, placement_only_recurrences: 0, g: MoveGenerator::new(), max_mult: 0 };
+        let mut cx = Ctx { seed, allowed: allowed.clone(), sink: &sink, ops: 0, histories: 0, recurrences: 0, threefold: 0, placement_only_recurrences: 0, g: MoveGenerator::new(), max_mult: 0, c05: false, key_checks: 0 };
         let mut board = build_board(&root);
         let mut ms: FxHashMap<CKey, u32> = FxHashMap::default();
         let mut pms: FxHashMap<[u64; 4], u32> = FxHashMap::default();
@@ -508,7 +551,7 @@ pub fn replay(v: &serde_json::Value) -> i32 {
         if v["extra"]["kind"].as_str() == Some("c17-game") {
             game_api(seed, &allowed, n.max(4), &sink);
         } else {
-            let mut cx = Ctx { seed, allowed: allowed.clone(), sink: &sink, ops: 0, histories: 0, recurrences: 0, threefold: 0, placement_only_recurrences: 0, g: MoveGenerator::new(), max_mult: 0 };
+            let mut cx = Ctx { seed, allowed: allowed.clone(), sink: &sink, ops: 0, histories: 0, recurrences: 0, threefold: 0, placement_only_recurrences: 0, g: MoveGenerator::new(), max_mult: 0, c05: false, key_checks: 0 };
             let mut board = build_board(&root);
             let mut ms: FxHashMap<CKey, u32> = FxHashMap::default();
             let mut pms: FxHashMap<[u64; 4], u32> = FxHashMap::default();
